@@ -193,7 +193,7 @@ def gen(seed, idx, tier, ctx):
             'calls': calls, 'hstar': hstar, 'mode': mode,
             'followups': [{'api': a, 'inp': {'t': 'str', 'v': t}, 'opts': o}
                           for a, t, o in fu],
-            'timeout': 120.0}
+            'timeout': 300.0}
 
 
 def gen_deep(rng, tier, k):
